@@ -125,7 +125,7 @@ pub fn process(ctx: &mut Ctx, text: &str) -> Result<(String, Vec<Value>), (Strin
                         None => (d2, ""),
                     };
                     cur = Some(Sub { kind: k.to_string(), arg: a.to_string(), lines: vec![], line_no: i });
-                } else if let Some(s) = cur.as_mut() {
+                } else if let Some(s) = cur.as_mut().filter(|s| matches!(s.kind.as_str(), "loop" | "closure" | "prologue" | "rewrite" | "rewrite?")) {
                     s.lines.push(l2.to_string());
                 } else {
                     blk.spec.push(l2.to_string());
